@@ -100,7 +100,9 @@ fn may_match_ellipsis_impl<'p, 't: 'p, D: Doc + 't>(
   let Some(curr_node) = goal_children.peek() else {
     // in rare case, an internal node's children is empty
     // see https://github.com/ast-grep/ast-grep/issues/1688
-    return Some(ControlFlow::Return);
+    // all (zero) goals are found: the candidates left must be skippable
+    let has_trailing = cand_children.all(|n| strictness.should_skip_trailing(&n));
+    return has_trailing.then_some(ControlFlow::Return);
   };
   let Ok(optional_name) = try_get_ellipsis_mode(curr_node) else {
     return Some(ControlFlow::Fallthrough);
